@@ -238,7 +238,10 @@ impl SwiftField for Field61 {
             result.push(funds_code);
         }
 
-        result.push_str(&format!("{:.2}", self.amount).replace('.', ","));
+        result.push_str(&super::swift_utils::format_swift_amount_min_decimals(
+            self.amount,
+            2,
+        ));
         result.push_str(&self.transaction_type);
         result.push_str(&self.customer_reference);
 
